@@ -500,7 +500,12 @@ func (s *Server) writeData() error {
 }
 
 func (s *Server) writePoint(p edge.PointMessage) error {
-	strs, floats, ints, bools := s.fieldsToTypedMaps(p.Fields())
+	strs, floats, ints, bools, err := s.fieldsToTypedMaps(p.Fields())
+	if err != nil {
+		// The protocol has no representation for this point: report it and carry on with the next one.
+		s.diag.Error("dropping point that cannot be sent to the UDF", err)
+		return nil
+	}
 	udfPoint := &agent.Point{
 		Time:            p.Time().UnixNano(),
 		Name:            p.Name(),
@@ -526,6 +531,7 @@ func (s *Server) fieldsToTypedMaps(fields models.Fields) (
 	floats map[string]float64,
 	ints map[string]int64,
 	bools map[string]bool,
+	err error,
 ) {
 	for k, v := range fields {
 		switch value := v.(type) {
@@ -550,7 +556,9 @@ func (s *Server) fieldsToTypedMaps(fields models.Fields) (
 			}
 			bools[k] = value
 		default:
-			panic("unsupported field value type")
+			// For example a duration (eval(lambda: 1s)) or a nil value (join().fill('null')).
+			err = fmt.Errorf("field %q has unsupported value type %T", k, v)
+			return
 		}
 	}
 	return
@@ -593,7 +601,11 @@ func (s *Server) writeBeginBatch(begin edge.BeginBatchMessage) error {
 }
 
 func (s *Server) writeBatchPoint(group models.GroupID, bp edge.BatchPointMessage) error {
-	strs, floats, ints, bools := s.fieldsToTypedMaps(bp.Fields())
+	strs, floats, ints, bools, err := s.fieldsToTypedMaps(bp.Fields())
+	if err != nil {
+		s.diag.Error("dropping batch point that cannot be sent to the UDF", err)
+		return nil
+	}
 	req := &agent.Request{
 		Message: &agent.Request_Point{
 			Point: &agent.Point{
